@@ -339,6 +339,18 @@ def replay(rep):
 
 
 # ----------------------------------------------------------------------------- correspondence generators
+def impl_call(ctx, fn, info, thunk):
+    """run the implementation; an exception on an input the model accepts is a correspondence break (the search
+    reports the same configuration as a violation with a replay)"""
+    try:
+        return thunk()
+    except Exception as e:
+        info = dict(info); info['impl_raised'] = repr(e)
+        ctx.corr_disagreement(fn, 'exception', info)
+        ctx.count('corr/%s/implementation_raised' % fn)
+        return None
+
+
 def per_case_str(x, w, nfft, cplx, dt, sbf, fs, impl, S, isreal=None):
     n = len(x) if nfft is None else nfft
     return 'per_case 0x1.12e0be826d695p-30 %s T%d %s %s %s %s %s %s %s %s %s' % (
@@ -354,7 +366,10 @@ def corr_speriodogram(ctx, cases, meta):
 
     def add(x, name, nfft, dt='False', sbf='False', fs=1.0, kind=''):
         N = len(x); cplx = np.iscomplexobj(x); w = win(N, name)
-        P = np.asarray(speriodogram(x, NFFT=nfft, detrend=PYV[dt][1], scale_by_freq=PYV[sbf][1], sampling=fs, window=name), dtype=float)
+        P = impl_call(ctx, 'speriodogram', {'x': hexx(x), 'window': name, 'NFFT': nfft, 'detrend': dt, 'scale_by_freq': sbf},
+                      lambda: np.asarray(speriodogram(x, NFFT=nfft, detrend=PYV[dt][1], scale_by_freq=PYV[sbf][1], sampling=fs, window=name), dtype=float))
+        if P is None:
+            return
         m = complex(np.mean(x)) if PYV[dt][1] == True else 0.0   # noqa: E712  (the code's own test)
         S = bin_bound(x, w, m)
         if PYV[sbf][1] is True:
@@ -424,7 +439,12 @@ def corr_2d(ctx, cases, meta):
         dt = ['False', 'False', 'True', 'None', '1'][int(rng.integers(0, 5))]
         sbf = ['False', 'False', 'False', 'True'][int(rng.integers(0, 4))]
         fs = float(rng.choice([1.0, 2.0, 0.5]))
-        P = np.asarray(speriodogram(X, NFFT=nfft, detrend=PYV[dt][1], scale_by_freq=PYV[sbf][1], sampling=fs, window=name), dtype=float)
+        P = impl_call(ctx, 'speriodogram', {'x': hexx(X), 'shape': [r, c], 'window': name, 'NFFT': nfft, 'detrend': dt, 'scale_by_freq': sbf},
+                      lambda: np.asarray(speriodogram(X, NFFT=nfft, detrend=PYV[dt][1], scale_by_freq=PYV[sbf][1], sampling=fs, window=name), dtype=float))
+        if P is None or P.ndim != 2:
+            if P is not None:
+                ctx.corr_disagreement('speriodogram', 'shape', {'x': hexx(X), 'shape': [r, c], 'window': name, 'NFFT': nfft, 'result_shape': list(P.shape)})
+            continue
         w = win(r, name)
         n = r if nfft is None else nfft
         S = max(bin_bound(X[:, j], w, complex(np.mean(X[:, j])) if PYV[dt][1] == True else 0.0) for j in range(c))  # noqa: E712
@@ -460,7 +480,11 @@ def corr_class(ctx, cases, meta):
         for _ in range(int(rng.integers(0, 5))):
             t = int(rng.integers(0, 4))
             ops.append('call' if t == 0 else ('read' if t == 1 else 'window:' + W[int(rng.integers(0, len(W)))]))
-        psd, nfft, rn, cur = run_class_ops(x, name, arg, ops, sbf=PYV[sbf][1], detrend=PYV[dt][1], sampling=fs)
+        res = impl_call(ctx, 'Periodogram', {'x': hexx(x), 'window': name, 'NFFT': arg, 'ops': ops, 'scale_by_freq': sbf, 'detrend': PYV[dt][1], 'sampling': fs},
+                        lambda: run_class_ops(x, name, arg, ops, sbf=PYV[sbf][1], detrend=PYV[dt][1], sampling=fs))
+        if res is None:
+            continue
+        psd, nfft, rn, cur = res
         cops = []
         for o in ops + ['read']:
             if o == 'call':
@@ -568,6 +592,8 @@ def corr_exact(ctx, cases, meta):
         fs = float(rng.choice([1.0, 2.0, 0.5])); nfft = None if (N == n and rng.integers(0, 2)) else n
         w = win(N, name)
         P = np.asarray(speriodogram(x, NFFT=nfft, detrend=PYV[dt][1], scale_by_freq=PYV[sbf][1], sampling=fs, window=name), dtype=float)
+        if not (np.all(np.isfinite(w)) and np.all(np.isfinite(P))):
+            ctx.count('exact/skipped_nonfinite'); continue
         S = bin_bound(x, w, complex(np.mean(x)) if PYV[dt][1] == True else 0.0) * (2 * np.pi / (fs / n) if sbf == 'True' else 1.0)  # noqa: E712
         cases.append('qper_case %s %s %d%%nat %s %s %s %s %s %s %s %s %s' % (tol, tolq(1e-3 * S + 1e-300), n, cz(2 * np.pi), czl(x), czl(w), optnat(nfft),
                      b2c(not cplx), PYV[dt][0], PYV[sbf][0], cz(fs), czl(P)))
@@ -577,6 +603,8 @@ def corr_exact(ctx, cases, meta):
         n = [2, 4][int(rng.integers(0, 2))]; r = int(rng.integers(1, n + 1)); c = int(rng.integers(1, 4)); cplx = bool(rng.integers(0, 2))
         X = lowbit(rng, r * c, cplx).reshape(r, c); name = W[int(rng.integers(0, len(W)))]; w = win(r, name)
         P = np.asarray(speriodogram(X, NFFT=n, detrend=False, scale_by_freq=False, window=name), dtype=float)
+        if not (np.all(np.isfinite(w)) and np.all(np.isfinite(P))):
+            ctx.count('exact/skipped_nonfinite'); continue
         S = max(bin_bound(X[:, j], w) for j in range(c))
         cases.append('qper2d_case %s %s %d%%nat %s %s %d%%nat %s %s %s PyFalse PyFalse %s %s' % (tol, tolq(1e-3 * S + 1e-300), n, cz(2 * np.pi),
                      '[' + '; '.join(czl(row) for row in X) + ']', c, czl(w), optnat(n), b2c(not cplx), cz(1.0), czl(P.ravel())))
@@ -592,6 +620,8 @@ def corr_exact(ctx, cases, meta):
         be = ['xcorr', 'CORRELATION'][int(rng.integers(0, 2))]; name = W[int(rng.integers(0, len(W)))]
         raised, P = call_correlogram(x, y, lag, name, norm, n, be)
         wfull = win(2 * lag + 1, name) if lag < N else np.ones(2 * lag + 1)
+        if not (np.all(np.isfinite(wfull)) and np.all(np.isfinite(P))):
+            ctx.count('exact/skipped_nonfinite'); continue
         S = float(np.sum(np.abs(x)) * np.sum(np.abs(x if y is None else y))) * 2 * max(1.0, float(np.max(np.abs(wfull))))
         cases.append('qcor_case %s %s %d%%nat %s %s %s %d%%nat %s %s %s %s %s %s' % (tol, tolq(1e-3 * S + 1e-300), n, cz(1.0), czl(x),
                      'None' if y is None else '(Some %s)' % czl(y), lag, czl(wfull), optnat(n), ncoq, 'BXcorr' if be == 'xcorr' else 'BCorrelation', b2c(raised), czl(P)))
@@ -608,8 +638,14 @@ def corr_exact(ctx, cases, meta):
         else:
             arg = n; acoq = '(NfInt %d)' % n
         sbf = ['False', 'True'][int(rng.integers(0, 2))]; fs = float(rng.choice([1.0, 2.0, 0.5])); nc = int(rng.integers(1, 4))
-        psd, nfft, rn, cur = run_class_ops(x, name, arg, ['call'] * nc, sbf=PYV[sbf][1], sampling=fs)
+        res = impl_call(ctx, 'Periodogram (exact)', {'x': hexx(x), 'window': name, 'NFFT': arg, 'ops': ['call'] * nc, 'scale_by_freq': sbf, 'sampling': fs},
+                        lambda: run_class_ops(x, name, arg, ['call'] * nc, sbf=PYV[sbf][1], sampling=fs))
+        if res is None:
+            continue
+        psd, nfft, rn, cur = res
         w = win(N, name)
+        if not (np.all(np.isfinite(w)) and np.all(np.isfinite(psd))):
+            ctx.count('exact/skipped_nonfinite'); continue
         S = bin_bound(x, w) * (2 * np.pi / (fs / n) if sbf == 'True' else 1.0)
         cases.append('qcls_case %s %s %d%%nat %s %s %s %s %s %s PyNone %s %d%%nat %d%%nat %s' % (tol, tolq(1e-3 * S + 1e-300), n, cz(2 * np.pi), czl(x), b2c(not cplx),
                      czl(w), cz(fs), acoq, PYV[sbf][0], nc, int(nfft), czl(psd)))
@@ -682,18 +718,20 @@ def search(ctx):
 
 
 def run(ctx):
+    import traceback
     ctx.check_theorems('Properties/C01.v')
     pre = pre_float()
-    for nm, gen, descr in (('c01_speriodogram', corr_speriodogram, 'speriodogram (1-D) vs Model.Periodogram.speriodogram at binary64 pairs, twiddle table from the harness'),
-                           ('c01_speriodogram2d', corr_2d, 'speriodogram (2-D input) vs speriodogram2d'),
-                           ('c01_class', corr_class, 'Periodogram object histories vs p_init/p_step'),
-                           ('c01_correlogram', corr_correlogram, 'CORRELOGRAMPSD vs correlogram (incl. overlapping layouts and raising inputs)')):
+    for nm, gen, pr, descr in (
+            ('c01_speriodogram', corr_speriodogram, pre, 'speriodogram (1-D) vs Model.Periodogram.speriodogram at binary64 pairs, twiddle table from the harness'),
+            ('c01_speriodogram2d', corr_2d, pre, 'speriodogram (2-D input) vs speriodogram2d'),
+            ('c01_class', corr_class, pre, 'Periodogram object histories vs p_init/p_step'),
+            ('c01_correlogram', corr_correlogram, pre, 'CORRELOGRAMPSD vs correlogram (incl. overlapping layouts and raising inputs)'),
+            ('c01_exact', corr_exact, PRE_Q, 'exact runs at Gaussian rationals, NFFT in {1,2,4} (tw1, tw2, tw4)')):
         cases = []; meta = []
-        gen(ctx, cases, meta)
-        for i in ctx.coq_cases(nm, pre, cases, descr=descr):
+        try:
+            gen(ctx, cases, meta)
+        except Exception:   # the search below must still run and turn the break into a replay
+            ctx.broken.append({'theorem': 'harness:%s (exception while generating cases)' % nm, 'where': nm, 'log': traceback.format_exc()[-2000:]})
+        for i in ctx.coq_cases(nm, pr, cases[:len(meta)], descr=descr):
             ctx.corr_disagreement(meta[i]['function'], i, meta[i])
-    cases = []; meta = []
-    corr_exact(ctx, cases, meta)
-    for i in ctx.coq_cases('c01_exact', PRE_Q, cases, descr='exact runs at Gaussian rationals, NFFT in {1,2,4} (tw1, tw2, tw4)'):
-        ctx.corr_disagreement(meta[i]['function'], i, meta[i])
     search(ctx)
